@@ -144,7 +144,7 @@ package logreader
 //@ func (*Simple).QueryRaftLog
 //@   results es, err
 //@   requires l != nil && l.LogQuerier != nil
-//@   ensures [C06.simple.run] err == nil ==> run(es, clusterID, logRange.FirstIndex) && (len(es) > 0 ==> logRange.FirstIndex + uint64(len(es)) <= logRange.LastIndex)
+//@   ensures [C06.simple.run+C05] err == nil ==> run(es, clusterID, logRange.FirstIndex) && (len(es) > 0 ==> logRange.FirstIndex + uint64(len(es)) <= logRange.LastIndex)
 //@   ensures [C06.simple.progress] err == nil && logFirst(clusterID) <= logRange.FirstIndex && logRange.FirstIndex < logRange.LastIndex && logRange.LastIndex <= logLast(clusterID) + 1 ==> len(es) >= 1
 //@   modifies nothing
 
@@ -171,7 +171,7 @@ package logreader
 //@   requires [inv]       shOf(l, clusterID) != nil ==> shOf(l, clusterID).cache != nil && cacheInv(shOf(l, clusterID).cache) && shOf(l, clusterID).cache.shard == clusterID
 //@   requires [ahead]     shOf(l, clusterID) != nil && len(shOf(l, clusterID).cache.buffer) > 0 ==> shOf(l, clusterID).cache.buffer[len(shOf(l, clusterID).cache.buffer)-1].Index < logRange.LastIndex
 //@   requires [compacted] shOf(l, clusterID) != nil && len(shOf(l, clusterID).cache.buffer) > 0 ==> logFirst(clusterID) <= shOf(l, clusterID).cache.buffer[0].Index
-//@   ensures [C06.cached.run]      err == nil ==> run(es, clusterID, logRange.FirstIndex) && (len(es) > 0 ==> logRange.FirstIndex + uint64(len(es)) <= logRange.LastIndex)
+//@   ensures [C06.cached.run+C05]      err == nil ==> run(es, clusterID, logRange.FirstIndex) && (len(es) > 0 ==> logRange.FirstIndex + uint64(len(es)) <= logRange.LastIndex)
 //@   ensures [C06.cached.inv]      shOf(l, clusterID) != nil ==> cacheInv(shOf(l, clusterID).cache)
 //@   ensures [C06.cached.top]      shOf(l, clusterID) != nil && len(shOf(l, clusterID).cache.buffer) > 0 ==> shOf(l, clusterID).cache.buffer[len(shOf(l, clusterID).cache.buffer)-1].Index < logRange.LastIndex
 //@   ensures [C06.cached.bottom]   shOf(l, clusterID) != nil && len(shOf(l, clusterID).cache.buffer) > 0 ==> logFirst(clusterID) <= shOf(l, clusterID).cache.buffer[0].Index
